@@ -28,40 +28,11 @@ Definition ex_hook : N := 999.
 
 (* ------------------------------------------------------------------ refuted clauses *)
 
-(* an attribute whose value is None is deleted instead of restored *)
-Lemma patch_none_refuted :
-  exists s s', get ("sys", "stdin") s = Some VNone /\
-    analyse ex_root ex_hook false false ([], Finish) s = Alive s' /\ get ("sys", "stdin") s' = None.
-Proof.
-  exists (set_attr ("sys", "stdin") VNone ex_state).
-  eexists. split; [vm_compute; reflexivity|]. split; [vm_compute; reflexivity|]. vm_compute. reflexivity.
-Qed.
-
-(* a script that deletes an attribute the analyser created (os.getcwdu does not exist in
-   Python 3) makes the restore loop raise: os.chdir and os.getcwd stay replaced *)
-Lemma delete_created_attr_refuted :
-  exists p s', no_patched_attr_is_None ex_state /\
-    analyse ex_root ex_hook false false p ex_state = Alive s' /\
-    get k_chdir s' <> get k_chdir ex_state /\ get ("os", "getcwd") s' <> get ("os", "getcwd") ex_state.
-Proof.
-  exists ([ODel ("os", "getcwdu")], Finish). eexists. split.
-  { intros q Hq. vm_compute in Hq.
-    repeat (destruct Hq as [<-|Hq]; [vm_compute; discriminate|]). destruct Hq. }
-  split; [vm_compute; reflexivity|]. split; vm_compute; discriminate.
-Qed.
-
 (* two analyses interleaved A-enter, B-enter, A-exit, B-exit: B restores A's replacement *)
 Lemma threads_refuted :
   get k_chdir (interleaved_outer ex_state) <> get k_chdir ex_state /\
   get k_chdir (interleaved_outer ex_state) = fake_of outer_patched outer_base k_chdir.
 Proof. split; vm_compute; [discriminate|reflexivity]. Qed.
-
-(* the usual `sys.path.insert(0, here)` of a setup.py survives: only one entry is removed *)
-Lemma sys_path_refuted :
-  exists p s', analyse ex_root ex_hook false false p ex_state = Alive s' /\ path s' <> path ex_state.
-Proof.
-  exists ([OPathIns ex_root], Finish). eexists. split; [vm_compute; reflexivity|]. vm_compute. discriminate.
-Qed.
 
 (* a module of the HOST whose file lies under "/" + basename(project) is evicted *)
 Lemma host_module_purged_refuted :
@@ -72,22 +43,37 @@ Proof.
   split; [vm_compute; reflexivity|]. split; [vm_compute; reflexivity|]. vm_compute. reflexivity.
 Qed.
 
-(* logging.captureWarnings(True) is never undone: warnings.showwarning stays replaced *)
-Lemma capture_warnings_refuted :
-  exists s', analyse ex_root ex_hook false false ([], Finish) ex_state = Alive s' /\
-    get k_showwarning s' <> get k_showwarning ex_state.
-Proof. eexists. split; [vm_compute; reflexivity|]. vm_compute. discriminate. Qed.
-
 (* os.mkdir / os.remove are not substituted: with the real cwd inside the project they act on it *)
 Lemma real_fs_ops_refuted :
   exists ops tree, run_fops ops tree <> tree.
 Proof. exists [FRealCreate "build"], ["setup.py"]. vm_compute. discriminate. Qed.
 
-(* hence the unguarded statement is false of the faithful model *)
+(* hence the unguarded statement is still false of the faithful model *)
 Lemma full_statement_refuted : ~ C13_full_statement.
 Proof.
-  intros H. destruct (H ex_root ex_hook false false ([ODel ("os", "getcwdu")], Finish) ex_state) as (s' & A & L & _).
+  intros H.
+  destruct (H ex_root ex_hook false false ([], Finish) (with_mods (("hostmod", KProj) :: mods ex_state) ex_state))
+    as (s' & A & L & _).
   vm_compute in A. inversion A; subst; clear A. vm_compute in L. discriminate.
+Qed.
+
+(* the former witnesses of the clauses that were refuted before the repairs, now restored *)
+Example former_witnesses_restored :
+  (exists s', analyse ex_root ex_hook false false ([], Finish) (set_attr ("sys", "stdin") VNone ex_state) = Alive s' /\
+              get ("sys", "stdin") s' = Some VNone) /\
+  (exists s', analyse ex_root ex_hook false false ([ODel ("os", "getcwdu")], Finish) ex_state = Alive s' /\
+              get k_chdir s' = get k_chdir ex_state /\ get ("os", "getcwd") s' = get ("os", "getcwd") ex_state /\
+              get ("os", "getcwdu") s' = None) /\
+  (exists s', analyse ex_root ex_hook false false ([ODel ("imp", "load_source")], Raise) ex_state = Alive s' /\
+              get ("importlib.util", "module_from_spec") s' = get ("importlib.util", "module_from_spec") ex_state /\
+              meta s' = meta ex_state) /\
+  (exists s', analyse ex_root ex_hook false false ([OPathIns ex_root; OPathIns "/elsewhere"], Finish) ex_state = Alive s' /\
+              path s' = path ex_state) /\
+  (exists s', analyse ex_root ex_hook false false ([], Finish) ex_state = Alive s' /\
+              get k_showwarning s' = get k_showwarning ex_state /\
+              get k_saved_showwarning s' = get k_saved_showwarning ex_state).
+Proof.
+  repeat split; eexists; repeat split; vm_compute; reflexivity.
 Qed.
 
 (* ------------------------------------------------------------------ project files *)
@@ -144,33 +130,25 @@ Proof. intros r d s H. unfold do_chdir. rewrite H. destruct (get k_chdir s); ref
 
 (* the three substituted attributes and the working directory come back when the backend leaves
    os.chdir alone, does not end with a created attribute deleted and does not call os._exit *)
-Theorem pyproject_partial : forall src p s sp,
-  (forall q, In q pyproject_patched -> get (pkey q) s <> Some VNone) ->
+Theorem pyproject_partial : forall src p s,
   forallb (fun o => negb (touches k_chdir o)) (fst p) = true ->
   snd p <> OsExit ->
-  sp = fold_left (py_step (mk_env src 0 false false s))
-         (fst p) (fst (patch_enter pyproject_patched pyproject_base (do_chdir None (get k_chdir s) src s))) ->
-  (forall q, In q pyproject_patched -> get (pkey q) s = None -> get (pkey q) sp <> None) ->
   exists s', analyse_pyproject src p s = Alive s' /\
     (forall q, In q pyproject_patched -> target_ok q s = true -> get (pkey q) s' = get (pkey q) s) /\
     cwd s' = cwd s.
 Proof.
-  intros src p s sp NN NT NE SP CP.
+  intros src p s NT NE.
   set (e := mk_env src 0 false false s) in *.
+  set (sp := fold_left (py_step e) (fst p)
+               (fst (patch_enter pyproject_patched pyproject_base (do_chdir None (get k_chdir s) src s)))).
+  assert (SP : sp = fold_left (py_step e) (fst p)
+               (fst (patch_enter pyproject_patched pyproject_base (do_chdir None (get k_chdir s) src s)))) by reflexivity.
   set (s1 := do_chdir None (get k_chdir s) src s) in *.
   assert (G1 : forall k, get k s1 = get k s) by (intros k; apply do_chdir_facts).
   assert (R1 : mods s1 = mods s) by apply do_chdir_facts.
   destruct (patch_enter pyproject_patched pyproject_base s1) as [s2 ts] eqn:PE. cbn [fst] in SP.
   destruct (patch_enter_spec _ _ _ _ _ PE pyproject_keys_nodup) as (F2 & T2 & I2 & ND2 & IN2).
-  pose proof (patch_enter_tokens _ _ _ _ _ PE pyproject_keys_nodup) as TK2.
-  assert (SF : Forall (tok_safe sp) ts).
-  { apply Forall_forall. intros [[k old]|] Ht; cbn; auto.
-    destruct (TK2 k old Ht) as [(q & Hq & <- & OKq) _].
-    rewrite Forall_forall in T2. specialize (T2 _ Ht). cbn in T2. rewrite G1 in T2.
-    destruct (get (pkey q) s) as [v|] eqn:G.
-    - left. subst old. cbn. intros ->. exact (NN q Hq G).
-    - right. apply CP; auto. }
-  destruct (patch_exit_spec ts sp ND2 SF) as (s4 & X4 & F4 & V4).
+  destruct (patch_exit_spec ts sp ND2) as (s4 & X4 & F4 & V4).
   (* os.chdir is the host's function from start to end *)
   assert (C3 : get k_chdir sp = get k_chdir s).
   { rewrite SP. rewrite py_steps_untouched by exact NT. destruct F2 as [F2 _].
@@ -186,7 +164,7 @@ Proof.
   split.
   { intros q Hq OK. rewrite (proj1 (do_chdir_facts None (e_real_chdir e) (cwd s) s4)).
     assert (OK1 : target_ok q s1 = true) by (unfold target_ok in *; rewrite R1; exact OK).
-    rewrite (V4 _ _ (IN2 q Hq OK1)). rewrite G1. apply undo_old_of. apply NN; exact Hq. }
+    rewrite (V4 _ _ (IN2 q Hq OK1)). apply G1. }
   change (e_real_chdir e) with (get k_chdir s).
   destruct (get k_chdir s) as [v|] eqn:GC.
   - rewrite do_chdir_real; [reflexivity|]. rewrite C4. cbn. apply value_eqb_eq. reflexivity.
@@ -216,17 +194,13 @@ Definition pyproject_argv_patched_b : bool := kmem ("sys", "argv") (map pkey pyp
 Lemma pyproject_argv_patched : pyproject_argv_patched_b = true.
 Proof. vm_compute. reflexivity. Qed.
 
-Theorem pyproject_argv_restored : forall src p s sp,
-  (forall q, In q pyproject_patched -> get (pkey q) s <> Some VNone) ->
+Theorem pyproject_argv_restored : forall src p s,
   forallb (fun o => negb (touches k_chdir o)) (fst p) = true ->
   snd p <> OsExit ->
-  sp = fold_left (py_step (mk_env src 0 false false s))
-         (fst p) (fst (patch_enter pyproject_patched pyproject_base (do_chdir None (get k_chdir s) src s))) ->
-  (forall q, In q pyproject_patched -> get (pkey q) s = None -> get (pkey q) sp <> None) ->
   exists s', analyse_pyproject src p s = Alive s' /\ get ("sys", "argv") s' = get ("sys", "argv") s.
 Proof.
-  intros src p s sp NN NT NE SP CP.
-  destruct (pyproject_partial src p s sp NN NT NE SP CP) as (s' & A & R & _).
+  intros src p s NT NE.
+  destruct (pyproject_partial src p s NT NE) as (s' & A & R & _).
   exists s'. split; [exact A|].
   pose proof pyproject_argv_patched as K. unfold pyproject_argv_patched_b in K. apply kmem_In in K.
   apply in_map_iff in K. destruct K as (q & E & Hq).
